@@ -1,6 +1,12 @@
 package props
 
-import "encoding/json"
+import (
+	"encoding/json"
+
+	"verif/harness/internal/faultconn"
+)
 
 func jsonMarshal(v interface{}) ([]byte, error)   { return json.Marshal(v) }
 func jsonUnmarshal(b []byte, v interface{}) error { return json.Unmarshal(b, v) }
+
+func faultconnOpts() faultconn.Options { return faultconn.Options{} }
